@@ -85,7 +85,7 @@ def C14():
 def C19():
     jobs = [Kani("c19_blit_twin", "vacuity twin", expect="fail", fail_desc="twin reached", ptr_checks=True, timeout=300, mem_gb=6)]
     for name, w, h, d, q in (("1x1_d4", 1, 1, 4, True), ("2x2_d0", 2, 2, 0, True), ("2x2_d16", 2, 2, 16, True), ("3x2_d24", 3, 2, 24, False),
-                             ("3x3_d36", 3, 3, 36, False), ("2x3_d7", 2, 3, 7, True)):
+                             ("3x3_d36", 3, 3, 36, False), ("2x3_d8", 2, 3, 8, True)):
         jobs.append(Kani("c19_blit_" + name,
                          "fast_bitmap_transfer into a %dx%d window (symbolic contents) from a raw 32 bpp image of %d symbolic bytes, all rectangle coordinates and image width/height arbitrary u16: no panic, no out-of-bounds or misaligned access; Ok and rectangle inside the window => exactly the rectangle's rows copied, everything else unchanged" % (w, h, d),
                          tiers=("quick", "thorough") if q else ("thorough",), ptr_checks=True,
